@@ -1,10 +1,19 @@
 import PyxModel.Sexp
+import PyxModel.Sql.Wire
 
-/-! driver commands of property C12 (stub: no command yet) -/
+/-! driver for `(c12 (uc …) "text" …)`: a sequence of `input` calls on one loader, then a build.
+    answer: `((accepted|parsing …) (stmt …) build-outcome)` -/
 namespace Pyx.Driver.C12
-open Pyx Pyx.Sexp
+open Pyx Pyx.Sexp Pyx.Sql Pyx.Sql.Wire
+
+def run (u : UC) (texts : List Text) : Sexp :=
+  let (l, outs) := texts.foldl (fun (acc : Loader × List Sexp) t =>
+    let (l', o) := acc.1.input u t
+    (l', (match o with | .accepted => sym "accepted" | .parsing => sym "parsing") :: acc.2)) (Loader.fresh, [])
+  list [list outs.reverse, list (l.statements.map stmtSexp), outcomeSexp (l.build u)]
 
 def handle : List Sexp → Option Sexp
+  | sym "c12" :: list (sym "uc" :: rows) :: texts => some (run (ucOf rows) (asTexts texts))
   | _ => none
 
 end Pyx.Driver.C12
